@@ -1,11 +1,11 @@
 #!/bin/sh
 # usage: tools/try_mutant.sh <patch.diff> <Cxx> [tier]   - apply a seeded change to /repo, run one check, always undo
-P="$1"; ID="$2"; TIER="${3:-quick}"
+P="$(readlink -f "$1")"; ID="$2"; TIER="${3:-quick}"
 cd /repo || exit 2
 if ! git diff --quiet; then echo "/repo has uncommitted changes"; exit 2; fi
-git apply "$P" 2>/dev/null || git apply -3 "$P" || { echo "patch does not apply"; git checkout -- .; exit 2; }
+git apply "$P" 2>/dev/null || { echo "patch does not apply"; git reset -q --hard HEAD; exit 2; }
 cd /verif && ./check "$ID" "$TIER" > /tmp/mutant_run.log 2>&1; RC=$?
-cd /repo && git checkout -- . && git clean -fdq
+cd /repo && git reset -q --hard HEAD && git clean -fdq
 grep -E "VIOLATION|KNOWN-FINDING|signature|\] OK|machinery" /tmp/mutant_run.log | head -12
 echo "exit=$RC"
 exit $RC
